@@ -17,8 +17,8 @@ def far_future_off():
 
 NOT_AFTER = [("-10y", -10 * YEAR), ("-1d", -DAY), ("-60s", -60), ("+60s", 60), ("+1h", 3600), ("+29d", 29 * DAY), ("+30d-60s", 30 * DAY - 60),
              ("+30d+60s", 30 * DAY + 60), ("+90d", 90 * DAY), ("+68y", 68 * YEAR), ("+100y", 100 * YEAR), ("9999-12-31", None)]
-RENEW_DELAY = [("0s", 0), ("1s", 1), ("1h", 3600), ("30d", 30 * DAY), ("91d", 91 * DAY), ("1000000000w", 10 ** 9 * 7 * DAY)]
-EARLY = [(None, 0), ("1s", 1), ("1h", 3600), ("40d", 40 * DAY), ("1000000000w", 10 ** 9 * 7 * DAY)]
+RENEW_DELAY = [("0s", 0), ("1s", 1), ("1h", 3600), ("30d", 30 * DAY), ("91d", 91 * DAY), ("1000000000w", 10 ** 9 * 7 * DAY), ("18446744073709551615s", 2 ** 64 - 1)]
+EARLY = [(None, 0), ("1s", 1), ("1h", 3600), ("40d", 40 * DAY), ("1000000000w", 10 ** 9 * 7 * DAY), ("18446744073709551615s", 2 ** 64 - 1)]
 SAN_RELATIONS = {
     "equal": ([("dns", "a.example"), ("dns", "b.example")], ["a.example", "b.example"], [], True),
     "permuted": ([("dns", "a.example"), ("dns", "b.example")], ["b.example", "a.example"], [], True),
